@@ -1,50 +1,40 @@
 package main
 
-import (
-	"fmt"
-	"os"
-
-	"github.com/google/gce-tcb-verifier/rotate"
-)
-
-// runC10Collide exercises the input class the C10 theorems exclude by their `Fresh` hypothesis: a rotation
-// whose serial override equals the current primary's subject serial (same common name), run with
-// --overwrite, so that the new certificate is written to the object that holds the primary's
-// certificate. Direct oracle only (no model line): after every single fault and reload the recorded
-// primary must still be usable.
-func runC10Collide(c *Ctx, snaps map[string]*e1Snap) {
-	for _, ca := range []string{"gcsmem", "gcslocal"} {
-		// measure the call positions with a fault-free colliding run
-		positions := 0
-		for pos := -1; pos < positions || pos == -1; pos++ {
+// c10CollideCases builds and runs the cases of the input class that was finding D22 before gcsca.upload was
+// repaired: a rotation whose serial override equals the current primary's subject serial (same common name),
+// so that the new certificate's object name is the one that holds the primary's certificate.  The repaired
+// upload refuses such an object before any storage call, with and without --overwrite; the Lean model
+// (Model/CA.lean `heldByOther`) predicts call log, result and post-state, and the direct oracle of
+// runC10Case checks that the primary's certificate object is never written, that the run does not report
+// success, and every C10 clause after reload (under the signature the finding had).
+func c10CollideCases(c *Ctx, base []*c10Case, runBatch func([]*c10Case, int, int), pre, post int) (collBase, singles []*c10Case) {
+	seen := map[string]bool{}
+	for _, b := range base {
+		if b.ca == "memca" {
+			continue // memca keys its certificates by key-version name: no object names, nothing to collide with
+		}
+		for _, ow := range []bool{false, true} {
+			k := b.km + "/" + b.ca + "/" + string(rune('0'+b.hist)) + "/" + b2s(ow)
+			if seen[k] || (c.Quick() && b.hist > 0 && !ow) {
+				continue
+			}
+			seen[k] = true
+			collBase = append(collBase, &c10Case{km: b.km, ca: b.ca, hist: b.hist, overwrite: ow, collide: true,
+				script: map[int]int{}, seed: c.Rng.Next()})
+		}
+	}
+	runBatch(collBase, pre, post)
+	for _, b := range collBase {
+		for pos := 0; pos < b.logLen; pos++ {
 			for _, o := range []int{fFail, fCrash} {
-				if pos == -1 && o == fCrash {
-					continue
+				if c.Quick() && o == fCrash && pos < b.logLen-2 && b.km == "localkm" {
+					continue // quick: crashes before Finalize sampled on one key manager
 				}
-				dir, err := os.MkdirTemp("", "verif-c10x-")
-				must(err)
-				script := map[int]int{}
-				if pos >= 0 {
-					script[pos] = o
-				}
-				in := newInst("memkm", ca, snaps["gcs/0"], dir, &Rng{s: c.Rng.Next()})
-				serial := in.nextSerial() - 1 // the current primary's own subject serial
-				ctx := rotateCtx(in.ctx(true, script), e1SignCN, serial)
-				f := in.f
-				res, _ := runGuarded(func() error { _, err := rotate.Key(ctx); return err })
-				if pos == -1 {
-					positions = len(f.log)
-					c.Extra["collide_positions_"+ca] = positions
-				}
-				in.reloadKM()
-				c.Count("collide/" + ca + "/res-" + res)
-				if cl, d := c10Oracle(in); cl != "" {
-					c.Find("c10/rotate.Key/"+cl+"/serial-override-collides-with-primary-certificate",
-						"rotation whose serial override (with --overwrite) reuses the primary's certificate object name, interrupted before the manifest write: "+d,
-						fmt.Sprintf("stack=memkm+%s serial=%d overwrite=1 script=%s log=%v", ca, serial, scriptString(script), f.log))
-				}
-				os.RemoveAll(dir)
+				singles = append(singles, &c10Case{km: b.km, ca: b.ca, hist: b.hist, overwrite: b.overwrite, collide: true,
+					script: map[int]int{pos: o}, seed: c.Rng.Next()})
 			}
 		}
 	}
+	runBatch(singles, pre, post)
+	return
 }
